@@ -203,6 +203,46 @@ def revision_dispatch(ctx, F):
     ctx.floor("R-TABLE", "revision dispatch sites", n, 8)
 
 
+def password_truncation(ctx, F):
+    """ISO 32000-2 7.6.4.3.3: the UTF-8 password is truncated to 127 bytes before any of Algorithms 2.A, 8, 9, 11, 12 uses it.
+    Sibling rule: every revision-6 method of PasswordAlgorithm that hands a caller-supplied password to compute_hash first cuts
+    it with `[..127]` under `len() > 127` — the writer of U/UE/O/OE and the readers must agree, or a document encrypted with a
+    longer password cannot be opened with it."""
+    n = 0
+    for pth, b in sorted(F.bodies.items()):
+        fn = F.canon_of(b)
+        if not re.match(r"^PasswordAlgorithm::\w+_r6$", fn) or b.kind == "Closure":
+            continue
+        ch = [c for c in b.calls if c.local and c.cname.endswith("PasswordAlgorithm::compute_hash")]
+        if not ch:
+            continue
+        # does a parameter (other than self) reach compute_hash's password argument?
+        takes_pw = False
+        for c in ch:
+            o = lib.origin_local(F, b, c.args[1])
+            if o is not None and o[0] is b and 2 <= o[1] <= b.argc:
+                takes_pw = True
+            elif o is not None and o[0] is b:
+                # a local that was cut from a parameter: follow its definitions
+                for d in b.defs.get(o[1], []):
+                    if d[2] == "call" and d[3]["args"]:
+                        q = lib.origin_local(F, b, d[3]["args"][0])
+                        if q is not None and q[0] is b and 2 <= q[1] <= b.argc:
+                            takes_pw = True
+                    elif d[2] == "rv" and d[3]["k"] in ("use", "ref", "cast"):
+                        q = lib.origin_local(F, b, d[3]["o"] if d[3]["k"] != "ref" else {"c": d[3]["p"]})
+                        if q is not None and q[0] is b and 2 <= q[1] <= b.argc:
+                            takes_pw = True
+        if not takes_pw:
+            continue
+        n += 1
+        cuts = [c for c in b.calls if (c.fn or "").endswith("ops::Index::index") and re.search(r"RangeTo::RangeTo\{127\}", b.oname(c.args[1], 3))]
+        tests = [g for bi in range(b.n) for g in [b.term(bi)] if g["k"] == "switch" and re.match(r"^Gt\(len\(.*\),127\)$", b.oname(g["d"], 4))]
+        ctx.ob("R-SIB", "password-cut-to-127|%s" % fn, bool(cuts) and bool(tests), "%s cuts the password to 127 bytes before hashing it" % fn, b.where(),
+               what="%s hashes the password without truncating it to 127 bytes, while its siblings (Algorithms 2.A, 8, 9, 11, 12) do: a document encrypted with a longer password is not opened by that password" % fn)
+    ctx.floor("R-SIB", "revision-6 methods that hash a password", n, 5)
+
+
 def fields_read_through_self(F, callee, adt_suffix, _memo={}):
     """names of the fields of `adt` that the callee or anything it calls touches."""
     key = (id(F), callee.path, adt_suffix)
@@ -328,6 +368,7 @@ def run(ctx):
            what="Algorithm 2.B(d): the selection of SHA-256/384/512 by (sum of the first 16 bytes of E) mod 3 is not what the code does (mapping %s, selector %s)"
                 % ((sd[0], sd[2][:120]) if sd else ("none", "none")))
     revision_dispatch(ctx, F)
+    password_truncation(ctx, F)
     nsr = set_before_read(ctx, F, "<EncryptionState as TryFrom>::try_from")
     ctx.floor("R-ORDER", "method calls on the PasswordAlgorithm under construction", nsr, 4)
     # permission bits
